@@ -120,12 +120,13 @@ theorem nafSelect_ops (g : GroupOps C) (sel cneg gen idn cteq) (tbl : List C) (x
 
 open Model.Ed448Pt in
 /-- `lookupTable.SelectInto(dest, x)`: Zero, eight constant-time Selects, CondNeg.  Variables:
-    v.points = 0, dest = 1, xabs = 4, `int(xmask & 1)` = 7; the int8 arithmetic of `xmask`/`xabs` is
-    hand-modelled (`absI8`, sign) and its TEXT pinned (`lookupSelect_facts`) -/
+    v.points = 0, dest = 1, xabs = 3, xsign (`int(xmask & 1)`) = 4; the int8 arithmetic of `xmask`/`xabs` is
+    hand-modelled (`absI8`, sign) and its NORMAL FORM pinned (`lookupSelect_facts`; temporaries such as
+    `xmask` are substituted, so splitting / merging them does not change it) -/
 theorem lookupSelect_ops (tbl : List Point) (x : Int) (dest d : Point) (gen idn : Point) :
     lookupSelectInto tbl x
       = (runStmt (pops ops select condNeg gen idn (fun a b => ctByteEq a.toNat b.toNat)) G.lookupSelect.body
-          ((((env0 d (fun k => tbl.getD k zeroPt)).setPt 1 dest).setInt 4 (Int.ofNat (absI8 x))).setInt 7
+          ((((env0 d (fun k => tbl.getD k zeroPt)).setPt 1 dest).setInt 3 (Int.ofNat (absI8 x))).setInt 4
             (if x < 0 then 1 else 0))).pts 1 := by
   ptops_named "C16TblOps.lookupSelect_ops" =>
     unfold lookupSelectInto pops
@@ -144,13 +145,13 @@ theorem lookupInit_facts :
   ptops_decide "C16TblOps.lookupInit_facts"
 
 theorem lookupSelect_facts :
-    G.lookupSelect.inputs = ["v.points", "dest", "x", "xmask", "xabs", "int(xmask & 1)"]
+    G.lookupSelect.inputs = ["v.points", "dest", "x", "xabs", "xsign"]
     ∧ G.lookupSelect.outputs = ["dest"]
     ∧ G.lookupSelect.guards = [] ∧ G.lookupSelect.paramWrites = ["dest"]
     ∧ G.lookupSelect.hazards = ["read of v.points after write of dest"]
-    ∧ G.lookupSelect.facts = [("opaque xmask", "x >> 7"), ("opaque xabs", "uint8((x + xmask) ^ xmask)"),
-        ("index-checked", "v.points[i-1] in [0, 7] of 8"), ("loop i", "for i := 1; i <= 8; i++"),
-        ("opaque int(xmask & 1)", "int(xmask & 1)")] := by
+    ∧ G.lookupSelect.facts = [("opaque xabs", "uint8((((x >> 7) + x) ^ (x >> 7)))"),
+        ("opaque xsign", "int(((x >> 7) & 1))"),
+        ("index-checked", "v.points in [0, 7] of 8"), ("loop 1", "from 1 below 9 step 1")] := by
   ptops_decide "C16TblOps.lookupSelect_facts"
 
 /-- no write through the parameter `q` (a `q2 := q.Add(q, q)` would list it) -/
@@ -167,10 +168,10 @@ theorem nafInit_facts :
 theorem nafSelect_facts :
     G.nafSelect5.inputs = ["v.points", "dest", "x"] ∧ G.nafSelect5.outputs = ["dest"]
     ∧ G.nafSelect5.paramWrites = ["dest"] ∧ G.nafSelect5.hazards = []
-    ∧ G.nafSelect5.facts = [("index-unchecked", "v.points[x/2]")]
+    ∧ G.nafSelect5.facts = [("index-unchecked", "v.points[(x / 2)]")]
     ∧ G.nafSelect8.inputs = ["v.points", "dest", "x"] ∧ G.nafSelect8.outputs = ["dest"]
     ∧ G.nafSelect8.paramWrites = ["dest"] ∧ G.nafSelect8.hazards = []
-    ∧ G.nafSelect8.facts = [("index-unchecked", "v.points[x/2]")] := by
+    ∧ G.nafSelect8.facts = [("index-unchecked", "v.points[(x / 2)]")] := by
   ptops_decide "C16TblOps.nafSelect_facts"
 
 theorem basepoint_facts :
